@@ -1771,6 +1771,55 @@ def replay(ck: Check):
     print('  reproduced' if hit else '  NOT reproduced')
 
 
+def pas_mapping_oracle(ck: Check):
+    """Direct oracle for PermutationAwareSynthesisPass (independent of the Lean
+    model): with an exact stub inner synthesis and scores that make each
+    candidate in turn the unique best one, the circuit returned must be the
+    target `PF^T U PI` of the mappings the pass REPORTS.  All four option
+    pairs, widths 2 and 3 (every index of the 1 / 2 / 6 / 4 / 36 candidates).
+    This is also the failing-input search when C10_pas_tables breaks."""
+    import logging as _lg
+    from translate import pas_order
+    n = 0
+    _lg.disable(_lg.WARNING)
+    try:
+        for ip, op in [(True, True), (True, False), (False, True),
+                       (False, False)]:
+            for width in (2, 3):
+                ncand = {(True, True): None}.get((ip, op))
+                k = 0
+                while True:
+                    o = pas_order.observe(
+                        ip, op, width, None,
+                        scores_fn=lambda m, k=k: [0 if i == k else 5
+                                                  for i in range(m)])
+                    n += 1
+                    ck.count(('pas', ip, op, width, k))
+                    want = o['recovered'][o['chosen']] \
+                        if 0 <= o['chosen'] < len(o['recovered']) else None
+                    got = (o['initial'], o['final'])
+                    if o['chosen'] != k or want != got:
+                        ck.violation(
+                            f'pas:reported-mapping:{ip}:{op}',
+                            f'PermutationAwareSynthesisPass(input_perm={ip}, '
+                            f'output_perm={op}) on a {width}-qubit unitary, '
+                            f'candidate {k} scoring best: returned candidate '
+                            f'{o["chosen"]}, which implements PF^T U PI for '
+                            f'(PI, PF) = {want}, but the pass reports '
+                            f'initial_mapping={got[0]} final_mapping={got[1]}',
+                            {'input_perm': ip, 'output_perm': op,
+                             'width': width, 'best_index': k,
+                             'how': 'translate.pas_order.observe with '
+                                    'scores 0 at best_index, 5 elsewhere'})
+                    k += 1
+                    if k >= o['nscores']:
+                        break
+    finally:
+        _lg.disable(_lg.NOTSET)
+        L.install_inproc_runtime()
+    ck.coverage['pas_mapping_oracle_runs'] = n
+
+
 def run(ck: Check, replaying: bool = False):
     if ck.replay_path and not replaying:
         return replay(ck)
@@ -1799,6 +1848,27 @@ def run(ck: Check, replaying: bool = False):
                      f'extract the rule data: {type(e).__name__}: {e}',
                      {'trace': traceback.format_exc()[-1500:]},
                      found_input=False)
+    # (B) PermutationAwareSynthesisPass bookkeeping: run the live synthesize
+    # with a stub inner synthesis and write what it did (Generated/PasOrder)
+    try:
+        import logging as _lg
+        from translate import pas_order
+        _lg.disable(_lg.WARNING)
+        try:
+            pt = pas_order.generate()
+        finally:
+            _lg.disable(_lg.NOTSET)
+        L.install_inproc_runtime()
+        ck.coverage['pas_tables'] = {
+            'enumeration_rows': len(pt['enum']),
+            'selection_rows': len(pt['select']),
+            'targets_recovered': sum(len(r[4]) for r in pt['enum'])}
+    except Exception as e:
+        ck.violation('pas-extraction', 'translate/pas_order.py could not '
+                     'observe PermutationAwareSynthesisPass.synthesize: '
+                     f'{type(e).__name__}: {e}',
+                     {'trace': traceback.format_exc()[-1500:]},
+                     found_input=False)
     mark('translate')
     proved = True if replaying else ck.lean_obligations()
     mark('lean_obligations')
@@ -1824,6 +1894,7 @@ def run(ck: Check, replaying: bool = False):
         found = any(v['found'] and v['signature'].startswith(
             ('rule-identity', 'rulepass', 'unitary:U3', 'unitary:ZXZXZ'))
             for v in ck.violations)
+        pas_broken = 'pas' in (ck.proof_failure or '').lower()
         if not found:
             ck.violation(
                 'lean-obligation', 'the proof obligations of Props/C10.lean '
@@ -1843,6 +1914,8 @@ def run(ck: Check, replaying: bool = False):
     mark('analytic')
     numerical_cases(ck, thorough)
     mark('numerical')
+    pas_mapping_oracle(ck)
+    mark('pas')
     if not replaying:
         runtime_sample(ck, thorough)
     mark('runtime_sample')
